@@ -15,6 +15,11 @@ Static clauses decided (necessary conditions of C16): the ordering skeleton of a
          the chain (test `<receiver> in dependent_objects`, evaluated before the object is appended); it is not raised
          for principals that are merely referenced (already saved objects stay on the chain and are legitimately
          reachable twice through a diamond).
+ DELQ    the queue order is the statement order, and Pony cascades depth-first (dependents are marked before the object they
+         depend on): an object that becomes marked_to_delete is put at the END of the save queue (objects_to_save.append on
+         every path that sets the status, with _save_pos_ = the new index), and when it already held a slot as a pending UPDATE
+         that slot is vacated (set to None).  Reusing the old slot would emit its DELETE before the DELETE/UPDATE of the rows
+         that still reference it.
 """
 NOT_DECIDED = "that the resulting statement order satisfies every foreign-key graph; deferred constraints; ordering between unrelated objects"
 
@@ -113,8 +118,37 @@ def run(ctx):
     ctx.ob('C16-CYCLE.raised-exactly-for-the-object-being-saved', sp, thr[0].ast if thr else sp.node, ok, detail,
            expected='`if %s: throw(UnresolvableCyclicDependency, ...)` before %s.append(%s)' % (want, chain, recv))
 
+    # ---------------------------------------------------------------- DELQ
+    dl = repo.fn(CORE, 'Entity._delete_')
+    g = cg.cfg(dl); recv = dl.recv
+    marks = [x for x in g.nodes if x.kind == 'stmt' and isinstance(x.ast, ast.Assign) and any(dotted(t) == recv + '._status_' for t in x.ast.targets)
+             and isinstance(x.ast.value, ast.Constant) and x.ast.value.value == 'marked_to_delete' and dl.node is not None
+             and not any(x.ast in ast.walk(nf.node) for nf in dl.nested.values())]
+    ctx.need(bool(marks), 'C16-DELQ: no `%s._status_ = \'marked_to_delete\'` in Entity._delete_' % recv)
+    queue_names = {'objects_to_save', 'cache.objects_to_save'}
+    apps = nodes_calling(g, lambda c: isinstance(c.func, ast.Attribute) and c.func.attr == 'append' and dotted(c.func.value) in queue_names
+                         and len(c.args) == 1 and dotted(c.args[0]) == recv)
+    poss = [x for x in g.nodes if x.kind == 'stmt' and isinstance(x.ast, ast.Assign) and any(dotted(t) == recv + '._save_pos_' for t in x.ast.targets)
+            and norm(x.ast.value).replace('cache.', '') == 'len(objects_to_save)']
+    vac = [x for x in g.nodes if x.kind == 'stmt' and isinstance(x.ast, ast.Assign) and any(isinstance(t, ast.Subscript) and dotted(t.value) in queue_names
+           and norm(t.slice) == 'save_pos' for t in x.ast.targets) and isinstance(x.ast.value, ast.Constant) and x.ast.value.value is None]
+    for mk in marks:
+        ok = g.dominated(mk, apps) and g.dominated(mk, poss)
+        ctx.ob('C16-DELQ.deleted-object-goes-to-the-end-of-the-queue', dl, mk.ast, ok,
+               '' if ok else 'a path reaches `%s` without `objects_to_save.append(%s)` / `%s._save_pos_ = len(objects_to_save)`: the object keeps the queue '
+               'slot of its pending UPDATE and its DELETE is emitted before the statements of the rows that reference it' % (norm(mk.ast), recv, recv), node=mk.ast)
+        # on the path where the object was 'modified' its old slot is vacated
+        tests = [t for t in g.nodes if t.kind == 'test' and norm(t.ast) == "status == 'modified'"]
+        okv = bool(vac) and bool(tests) and all(g.must_pass_after(t, vac, exits=[mk], edge_ok=lambda x, y, lab, t=t: not (x == t.id and lab == 'F')) for t in tests
+                                                if mk.id in g.reach([t]))
+        ctx.ob('C16-DELQ.old-slot-vacated', dl, mk.ast, okv, '' if okv else 'a modified object that is deleted keeps its earlier slot in the save queue (it would be saved twice, '
+               'or deleted at the position of its UPDATE)', node=mk.ast)
+
 
 MUTANTS = [
+    dict(id='C16-q1', file='pony/orm/core.py', fn='Entity._delete_', old="                        objects_to_save[save_pos] = None\n", new="                        pass\n", expect='C16-DELQ.old-slot'),
+    dict(id='C16-q2', file='pony/orm/core.py', fn='Entity._delete_', old="                    obj._save_pos_ = len(objects_to_save)\n                    objects_to_save.append(obj)\n                    obj._status_ = 'marked_to_delete'",
+         new="                    if status != 'modified':\n                        obj._save_pos_ = len(objects_to_save)\n                        objects_to_save.append(obj)\n                    obj._status_ = 'marked_to_delete'", expect='C16-DELQ.deleted-object'),
     dict(id='C16-m1', file='pony/orm/core.py', fn='SessionCache.flush',
          old='                    for attr, (added, removed) in modified_m2m.items():\n                        if not removed: continue\n                        attr.remove_m2m(removed)\n                    for obj in cache.objects_to_save:\n                        if obj is not None: obj._save_()\n',
          new='                    for obj in cache.objects_to_save:\n                        if obj is not None: obj._save_()\n                    for attr, (added, removed) in modified_m2m.items():\n                        if not removed: continue\n                        attr.remove_m2m(removed)\n',
